@@ -128,12 +128,12 @@ package freelist
 //@   ensures [readers] len(t.readonlyTXIDs) == old(len(t.readonlyTXIDs)) && (forall r common.Txid :: isreader(t, r) ==> old(isreader(t, r))) && (forall r common.Txid :: old(isreader(t, r)) ==> isreader(t, r))
 //@   modifies gfree, mapof(t.pending), all("txPending.ids"), all("txPending.alloctx"), all("txPending.lastReleaseBegin"), allelems("common.Pgid"), allelems("common.Txid"), all("array.ids"), all("hashMap.freePagesCount"), allmaps("uint64", "freelist.pidSet"), allmaps("common.Pgid", "uint64")
 //@   loop 0 invariant [rep] reppend(t) && seppend(t)
-//@   loop 0 invariant [hdr] t.Interface == old(t.Interface) && len(t.readonlyTXIDs) == old(len(t.readonlyTXIDs)) && arrayof(t.readonlyTXIDs) == old(arrayof(t.readonlyTXIDs)) && offof(t.readonlyTXIDs) == old(offof(t.readonlyTXIDs))
+//@   loop 0 invariant [hdr] t.Interface == old(t.Interface) && loopsame(t.readonlyTXIDs) && len(t.readonlyTXIDs) == old(len(t.readonlyTXIDs))
 //@   loop 0 invariant [idx] rangeindex < len(t.readonlyTXIDs)
 //@   loop 0 invariant [sorted] forall a int, b int :: 0 <= a && a <= b && b < len(t.readonlyTXIDs) ==> t.readonlyTXIDs[a] <= t.readonlyTXIDs[b]
 //@   loop 0 invariant [bound] forall a int :: 0 <= a && a < len(t.readonlyTXIDs) ==> t.readonlyTXIDs[a] < 18446744073709551615
-//@   loop 0 invariant [perm1] forall a int :: 0 <= a && a < len(t.readonlyTXIDs) ==> (let r := t.readonlyTXIDs[a] in old(isreader(t, r)))
-//@   loop 0 invariant [perm2] forall a int :: 0 <= a && a < old(len(t.readonlyTXIDs)) ==> (let r := old(t.readonlyTXIDs[a]) in isreader(t, r))
+//@   loop 0 invariant [perm1] forall a int :: 0 <= a && a < entry(len(t.readonlyTXIDs)) ==> (let r := entry(t.readonlyTXIDs[a]) in old(isreader(t, r)))
+//@   loop 0 invariant [perm2] forall a int :: 0 <= a && a < old(len(t.readonlyTXIDs)) ==> (let r := old(t.readonlyTXIDs[a]) in entry(isreader(t, r)))
 //@   loop 0 invariant [minid] (rangeindex == 0-1 ==> minid == (len(t.readonlyTXIDs) > 0 ? t.readonlyTXIDs[0] : 18446744073709551615)) && (rangeindex >= 0 ==> minid == t.readonlyTXIDs[rangeindex] + 1)
 //@   loop 0 invariant [safe] forall p common.Pgid, a int :: gfree[ifaceref(t.Interface)][p] && !old(gfree[ifaceref(t.Interface)][p]) && 0 <= a && a < len(t.readonlyTXIDs) ==> !(galloc(p) <= t.readonlyTXIDs[a] && t.readonlyTXIDs[a] < gpend(p))
 //@   loop 0 invariant [freekept] forall p common.Pgid :: old(gfree[ifaceref(t.Interface)][p]) ==> gfree[ifaceref(t.Interface)][p]
